@@ -84,4 +84,39 @@ theorem signing_key_hex (C : CryptoFns) (seed : Bytes) :
     (publicOf C (.privkey seed)).bind pubToHex = .ok (C09.pubHex C seed) := by
   simp [publicOf, Except.bind, pubToHex, pubToBytes, bind, pure, Except.pure, C09.pubHex]
 
+/-! ## key files (`gen_and_write_keys`, `keyfiles_to_keys`) -/
+
+/-- `gen_and_write_keys(fname)` (`metadata_construction.py:167-190`) for the seed the OS generator produced: the key objects and the two
+files' contents (`fname.pri`, `fname.pub`) -/
+def genAndWriteKeys (C : CryptoFns) (seed : Bytes) : Res ((PyVal × PyVal) × (Bytes × Bytes)) := do
+  let priv := PyVal.privkey seed
+  let pub ← publicOf C priv
+  let pb ← privToBytes priv
+  let qb ← pubToBytes pub
+  pure ((priv, pub), (pb, qb))
+
+/-- `keyfiles_to_keys(name)` (`common.py:849-882`) on the two files' contents -/
+def keyfilesToKeys (pri pub : Bytes) : Res (PyVal × PyVal) := do
+  let a ← privFromBytes (.bytes pri)
+  let b ← pubFromBytes (.bytes pub)
+  pure (a, b)
+
+/-- **keys written to key files load back as equivalent keys** — in fact as the same keys — and the files hold exactly the 32 raw bytes -/
+theorem keyfiles_roundtrip (C : Crypto) (seed : Bytes) (hs : seed.length = 32) :
+    ∃ priv pub pri pubf, genAndWriteKeys C.toCryptoFns seed = .ok ((priv, pub), (pri, pubf)) ∧ pri = seed ∧ pubf = C.pubOf seed ∧
+      keyfilesToKeys pri pubf = .ok (priv, pub) ∧
+      privIsEquivalent priv priv = .ok true ∧ pubIsEquivalent pub pub = .ok true := by
+  refine ⟨.privkey seed, .pubkey (C.pubOf seed), seed, C.pubOf seed, ?_, rfl, rfl, ?_, ?_, ?_⟩
+  · simp [genAndWriteKeys, publicOf, privToBytes, pubToBytes, bind, Except.bind, pure, Except.pure]
+  · simp [keyfilesToKeys, privFromBytes, pubFromBytes, hs, C.pub_len seed hs, bind, Except.bind, pure, Except.pure]
+  · simp [privIsEquivalent, checkKey, okU, bind, Except.bind, pure, Except.pure]
+  · simp [pubIsEquivalent, checkKey, okU, bind, Except.bind, pure, Except.pure]
+
+/-- key files of any other length are rejected when loaded -/
+theorem keyfiles_reject_length (pri pub : Bytes) (h : pri.length ≠ 32 ∨ pub.length ≠ 32) : keyfilesToKeys pri pub = .error .arg := by
+  by_cases h1 : pri.length = 32
+  · have h2 : pub.length ≠ 32 := by cases h with | inl h => exact absurd h1 h | inr h => exact h
+    simp [keyfilesToKeys, privFromBytes, pubFromBytes, h1, h2, bind, Except.bind]
+  · simp [keyfilesToKeys, privFromBytes, h1, bind, Except.bind]
+
 end CCT.C19
